@@ -296,6 +296,10 @@ def make_forms(cell, thorough):
         out.append(("a:u+v- GLL", u1("+") * v1("-") * dS(metadata={"quadrature_rule": "GLL", "quadrature_degree": 3})))
     if cell != "interval":
         out.append(("M:jump(f)g- GJ", ufl.jump(f) * g("-") * dS(metadata={"quadrature_rule": "Gauss-Jacobi", "quadrature_degree": 4})))
+    # derivatives of order >= the element degree: constant on simplices, but still varying along the facet on quadrilaterals / hexahedra (Q1 gradients)
+    f1, g1 = ufl.Coefficient(S1), ufl.Coefficient(S1)
+    out.append(("M:grad(f1)+.grad(g1)-", ufl.inner(ufl.grad(f1)("+"), ufl.grad(g1)("-")) * dS))
+    out.append(("a:grad(u1)+.grad(v1)- f1+", ufl.inner(ufl.grad(u1)("+"), ufl.grad(v1)("-")) * f1("+") * dS))
     if thorough:
         out += [
             ("a:jump(grad u)jump(grad v)", ufl.inner(ufl.jump(ufl.grad(u2)), ufl.jump(ufl.grad(v2))) * dS),
@@ -499,7 +503,8 @@ def main():
         _, fl = make_forms(cell, chk.thorough)
         nforms = len(fl)
         if cell == "hexahedron" and not chk.thorough:
-            use = [0, 1, 3, 7, 10, 12]  # 2304 numbering pairs x 8 code pairs each: a subset of the forms in the quick tier
+            # 2304 numbering pairs x 8 code pairs each: a subset of the forms in the quick tier
+            use = [i for i, (nm, _) in enumerate(fl) if nm in ("M:jump(f)jump(g)", "M:f+g-", "M:two-rules", "a:jump(u)jump(v)", "a:vec jump", "M:f+g- GLL", "M:grad(f1)+.grad(g1)-")]
         else:
             use = range(nforms)
         for i in use:
